@@ -17,7 +17,21 @@ struct C32Diff { std::string field; long idx; long n; double a, b; long count; d
 
 struct C32Cmp {
   int mode = 0; double rtol = 0, atol = 0;
+  // limited-precision mode only: position-like quantities are sums of printed inputs (frame offset +
+  // rotated local position, re-centring of an aligned free body, ...), so their error is bounded by the
+  // printed precision times the model's LENGTH SCALE, not times their own magnitude: atol_pos =
+  // rtol * max |position/size input|.  nabs counts the comparisons decided by this absolute bound.
+  double atol_pos = 0; long nabs = 0; bool cur_pos = false;
+  std::vector<char> qmask;       // per qpos coordinate: 1 = translation of a free joint
+  const std::vector<char>* cur_mask = nullptr; long cur_i = 0;
   std::vector<C32Diff> diffs;
+  static bool poslike(const char* f) {
+    static const char* names[] = {"body_pos", "body_ipos", "geom_pos", "site_pos", "cam_pos", "light_pos", "jnt_pos", "cam_pos0", "cam_poscom0",
+                                  "light_pos0", "light_poscom0", "stat.center", "key_mpos", "geom_aabb", "bvh_aabb", nullptr};
+    for (int i = 0; names[i]; i++) if (!std::strcmp(f, names[i])) return true;
+    return false;
+  }
+  static bool qposlike(const char* f) { return !std::strcmp(f, "qpos0") || !std::strcmp(f, "qpos_spring") || !std::strcmp(f, "key_qpos"); }
   template <class T> bool same(T a, T b) const {
     if (!std::memcmp(&a, &b, sizeof(T))) return true;
     if constexpr (std::is_floating_point_v<T>) {
@@ -25,14 +39,19 @@ struct C32Cmp {
       if (mode == 0) return false;
       if (std::isnan(a) || std::isnan(b)) return std::isnan(a) && std::isnan(b);
       double d = std::fabs((double)a - (double)b), s = std::fmax(std::fabs((double)a), std::fabs((double)b));
-      return d <= rtol * s + atol;
+      if (d <= rtol * s + atol) return true;
+      bool pos = cur_pos || (cur_mask && !cur_mask->empty() && (*cur_mask)[(size_t)cur_i % cur_mask->size()]);
+      if (pos && d <= atol_pos) { const_cast<C32Cmp*>(this)->nabs++; return true; }
+      return false;
     }
     return false;
   }
   template <class T> void arr(const char* name, const T* a, const T* b, long n) {
     long cnt = 0, first = -1; double maxs = 0;
     if (!a || !b) { if (n > 0 && (a != nullptr) != (b != nullptr)) diffs.push_back({name, -1, n, 0, 0, 1, INFINITY}); return; }
-    for (long i = 0; i < n; i++) if (!same(a[i], b[i])) {
+    cur_pos = mode == 1 && poslike(name);
+    cur_mask = (mode == 1 && qposlike(name)) ? &qmask : nullptr;
+    for (long i = 0; i < n; i++) if ((cur_i = i, !same(a[i], b[i]))) {
       if (first < 0) first = i;
       cnt++;
       double x = (double)a[i], y = (double)b[i];
@@ -71,6 +90,20 @@ static inline long c32_normalize_dontcare(mjModel* m1, mjModel* m2) {
       m1->eq_objtype[i] = m2->eq_objtype[i] = 0;
     }
   return n;
+}
+
+// length scale of the model: largest magnitude among the position and size inputs
+static inline double c32_length_scale(const mjModel* m) {
+  double L = 0;
+  auto acc = [&](const mjtNum* v, long n) { for (long i = 0; i < n; i++) if (std::isfinite(v[i]) && std::fabs(v[i]) > L) L = std::fabs(v[i]); };
+  acc(m->body_pos, 3L * m->nbody); acc(m->body_ipos, 3L * m->nbody); acc(m->geom_pos, 3L * m->ngeom); acc(m->geom_size, 3L * m->ngeom);
+  acc(m->site_pos, 3L * m->nsite); acc(m->cam_pos, 3L * m->ncam); acc(m->light_pos, 3L * m->nlight); acc(m->jnt_pos, 3L * m->njnt);
+  for (long i = 0; i < 3L * m->nmeshvert; i++) if (std::fabs((double)m->mesh_vert[i]) > L) L = std::fabs((double)m->mesh_vert[i]);
+  return L;
+}
+static inline void c32_free_translation_mask(const mjModel* m, std::vector<char>& mask) {
+  mask.assign((size_t)m->nq, 0);
+  for (int j = 0; j < m->njnt; j++) if (m->jnt_type[j] == mjJNT_FREE) for (int k = 0; k < 3; k++) mask[(size_t)m->jnt_qposadr[j] + k] = 1;
 }
 
 // returns true when all sizes agree (arrays are only compared then)
